@@ -43,6 +43,12 @@ ConfNext == /\ \/ last.a \in {"init", "rejuvenate"} /\ \E v \in {1, 2} : SetRoot
                \/ last.a = "rootver" /\ \E l \in Levels, i \in 1..N : Exclude(l, i)
                \/ last.a = "exclude" /\ Rejuvenate
             /\ h' = Append(h, last')
+\* emptying run: a range filter on the root or the first child lets all, some or
+\* no events pass (a level is temporarily empty), manual edits on every level
+EmptyNext == /\ \/ last.a \in {"init", "rejuvenate"}
+                   /\ EditStepR({0, 1}, Levels, {1..5, {}, 2..4}, {})
+                \/ last.a \notin {"init", "rejuvenate"} /\ Rejuvenate
+             /\ h' = Append(h, last')
 Emit == (Len(h) = MaxDepth) => PrintT(<<"H", ToJson(h)>>)
 HCon == Len(h) <= MaxDepth /\ Emit
 =============================================================================
